@@ -7,7 +7,12 @@ import TsV.Lemmas.C15_Spec
 2. running a lexer: `final` / `okOn` over concatenations, printer text, and the generic
    `run_flatMap` (a block is a prefix, a list of entries, a suffix);
 3. per lexer: what one doc string does to the lexer (`line_okOn`, `tsDoc_okOn`, `pyDoc_okOn`);
-4. per renderer: `contained = all (not Bad)`.
+4. per renderer: `contained = all (not Bad)`;
+8. the repaired TypeScript / Python printers never write `*/` / an unescaped `\"\"\"` (`ts_escape_no_close`,
+   `py_escape_ok`), and their escaping functions are `str::replace` (`ts_escape_eq_replace`, `py_escape_eq_replace`);
+9. the parser's comment entries contain neither `\n` nor `\r` (`entries_no_break`) and only characters of
+   the doc strings (`entries_any`);
+10. `contained_entries`: on parser entries, `contained = !KnownScalaSub`.
 -/
 namespace TsV.C15
 open TsV TsV.Lang
@@ -271,25 +276,32 @@ theorem contained_ts (U : UnicodeOps) (n : Nat) (cs : List Str) :
       simp [nl, List.foldl_append, cStep, tsSyntax_nest, foldl_tabs_block]
   have hpre : InBlock ((tabs n ++ s%"/**").foldl (cStep tsSyntax) .code) := by
     simp [List.foldl_append, foldl_tabs_code, cStep, InBlock]
-  show containedIn _ _ _ (renderT .typescript U n cs) = cs.all fun c => !Str.containsSub c s%"*/"
+  show containedIn _ _ _ (renderT .typescript U n cs)
+    = cs.all fun c => !Str.containsSub (TypeScript.escapeDoc c) s%"*/"
+  have hall : ∀ l : List Str, (l.map TypeScript.escapeDoc).all (fun c => !Str.containsSub c s%"*/")
+      = l.all fun c => !Str.containsSub (TypeScript.escapeDoc c) s%"*/" := by
+    intro l; simp [List.all_map, Function.comp_def]
   match cs with
   | [] => rfl
   | [c] =>
     have e : renderT .typescript U n [c]
-        = P (tabs n ++ s%"/**") ++ ([c].flatMap (fun c => P s%" " ++ D c) ++ P (s%" */" ++ nl)) := by
+        = P (tabs n ++ s%"/**") ++ (([c].map TypeScript.escapeDoc).flatMap (fun c => P s%" " ++ D c)
+            ++ P (s%" */" ++ nl)) := by
       simp [renderT]
-    rw [e]
+    rw [e, ← hall]
     exact ts_block _ _ _ hpre hsp (by
       rintro s (rfl | rfl) <;> simp [nl, cStep, tsSyntax_nest]) _
   | c1 :: c2 :: r =>
     have e : renderT .typescript U n (c1 :: c2 :: r)
-        = P (tabs n ++ s%"/**") ++ ((c1 :: c2 :: r).flatMap (fun c => P (nl ++ tabs n ++ s%" * ") ++ D c)
+        = P (tabs n ++ s%"/**") ++ (((c1 :: c2 :: r).map TypeScript.escapeDoc).flatMap
+              (fun c => P (nl ++ tabs n ++ s%" * ") ++ D c)
             ++ P (nl ++ tabs n ++ s%" */" ++ nl)) := by
-      have := sep_append_tInter (P (nl ++ tabs n ++ s%" * ")) ((c1 :: c2 :: r).map D) (by simp)
+      have := sep_append_tInter (P (nl ++ tabs n ++ s%" * "))
+        (((c1 :: c2 :: r).map TypeScript.escapeDoc).map D) (by simp)
       rw [flatMap_map'] at this
       rw [← this]
-      simp [renderT, nl]
-    rw [e]
+      simp [renderT, nl, Function.comp_def]
+    rw [e, ← hall]
     exact ts_block _ _ _ hpre hsep (by
       rintro s (rfl | rfl) <;>
         simp [nl, List.foldl_append, cStep, tsSyntax_nest, foldl_tabs_block]) _
@@ -385,26 +397,29 @@ theorem hash_foldl (c : Str) (h : c.any pyEol = false) : c.foldl pyStep .hash = 
 
 theorem contained_pyDoc (U : UnicodeOps) (n : Nat) (cs : List Str) :
     contained .pyDoc U n cs = cs.all fun c => !Bad .pyDoc U c := by
-  show containedIn _ _ _ (renderT .pyDoc U n cs) = cs.all fun c => !unescapedTripleQuote false c
+  show containedIn _ _ _ (renderT .pyDoc U n cs)
+    = cs.all fun c => !unescapedTripleQuote false (Python.escapeDoc c)
   match cs with
   | [] => rfl
   | c1 :: r =>
     have e : renderT .pyDoc U n (c1 :: r)
         = P (Python.indent n ++ s%"\"\"\"\n") ++
-          ((c1 :: r).flatMap (fun c => P (Python.indent n) ++ D c ++ P nl)
+          ((c1 :: r).flatMap (fun c => P (Python.indent n) ++ D (Python.escapeDoc c) ++ P nl)
             ++ P (Python.indent n ++ s%"\"\"\"" ++ nl)) := by
-      have := tInter_append_sep (P nl) ((c1 :: r).map fun c => P (Python.indent n) ++ D c) (by simp)
+      have := tInter_append_sep (P nl)
+        ((c1 :: r).map fun c => P (Python.indent n) ++ D (Python.escapeDoc c)) (by simp)
       rw [flatMap_map'] at this
       rw [← this]
       simp [renderT]
     rw [e]
-    refine run_block _ _ (fun s => s = PSt.long '"') _ (fun c => unescapedTripleQuote false c) _ _ PSt.code
-      ?_ ?_ ?_ ?_ _
+    refine run_block _ _ (fun s => s = PSt.long '"') _
+      (fun c => unescapedTripleQuote false (Python.escapeDoc c)) _ _ PSt.code ?_ ?_ ?_ ?_ _
     · simp [List.foldl_append, foldl_indent, pyStep, pyFromCode]
     · rintro s c rfl
-      simp [okOn_append, foldl_indent, (pyDoc_okOn c).1]
+      simp [okOn_append, foldl_indent, (pyDoc_okOn (Python.escapeDoc c)).1]
     · rintro s c rfl hb
-      have h := pyDoc_final c _ (Or.inl rfl) (by simp [(pyDoc_okOn c).1, hb])
+      have h := pyDoc_final (Python.escapeDoc c) _ (Or.inl rfl)
+        (by simp [(pyDoc_okOn (Python.escapeDoc c)).1, hb])
       simp only [final_append, final_P, final_D, foldl_indent _ (Or.inr (Or.inl rfl))]
       rcases h with h | h | h | h <;> simp [h, nl, pyStep]
     · rintro s rfl
@@ -469,7 +484,8 @@ theorem contained_eq (sty : Style) (U : UnicodeOps) (n : Nat) (cs : List Str) :
 @[simp] theorem docChars_cons_true (c : Char) (t : TStr) : docChars ((c, true) :: t) = c :: docChars t := rfl
 
 theorem written_fun (sty : Style) (U : UnicodeOps) :
-    written sty U = if sty = .swift then Swift.trimEnd U else id := by
+    written sty U = if sty = .swift then Swift.trimEnd U else if sty = .typescript then TypeScript.escapeDoc
+      else if sty = .pyDoc then Python.escapeDoc else id := by
   funext c; cases sty <;> rfl
 
 theorem docChars_tInter (sep : TStr) (h : docChars sep = []) (xs : List TStr) :
@@ -572,5 +588,367 @@ theorem final_eq_foldl {σ : Type} (step : σ → Char → σ) (s : σ) (t : TSt
   | nil => rfl
   | cons x t ih => obtain ⟨c, d⟩ := x; simp [final, ih]
 
+
+/-! ## 8. the repaired printers never write a comment terminator -/
+
+/-! ### TypeScript: `*/` written as `*\/` -/
+theorem ts_escape_head (r : Str) : (TypeScript.escapeDoc r).head? = r.head? := by
+  cases r with
+  | nil => rfl
+  | cons c r =>
+    simp only [TypeScript.escapeDoc]
+    split
+    · next h => simp [h.1]
+    · rfl
+
+theorem ts_escape_no_close (c : Str) : Str.containsSub (TypeScript.escapeDoc c) s%"*/" = false := by
+  induction c with
+  | nil => rfl
+  | cons x r ih =>
+    simp only [TypeScript.escapeDoc]
+    split
+    · simp [Str.containsSub, Str.startsWith, ih]
+    · next h =>
+      simp only [Str.containsSub, ih, Bool.or_false]
+      by_cases hx : x = '*'
+      · subst hx
+        have hh := ts_escape_head r
+        cases hr : TypeScript.escapeDoc r with
+        | nil => simp [Str.startsWith]
+        | cons y t =>
+          rw [hr] at hh
+          have : y ≠ '/' := by
+            intro hy; subst hy; exact h ⟨rfl, hh.symm⟩
+          simp [Str.startsWith, this]
+      · simp [Str.startsWith, hx]
+
+/-! ### Python: `\"\"\"` written as `\\\"\\\"\\\"` -/
+theorem py_escape_head (r : Str) (h : (Python.escapeDoc r).head? = some '"') : r.head? = some '"' := by
+  match r with
+  | [] => simp [Python.escapeDoc] at h
+  | [a] => simpa [Python.escapeDoc] using h
+  | [a, b] => simpa [Python.escapeDoc] using h
+  | a :: b :: c :: r' =>
+    simp only [Python.escapeDoc] at h
+    split at h
+    · simp at h
+    · simpa using h
+
+theorem py_escape_starts2 (r : Str) (h : Str.startsWith (Python.escapeDoc r) s%"\"\"" = true) :
+    Str.startsWith r s%"\"\"" = true := by
+  match r with
+  | [] => simp [Python.escapeDoc, Str.startsWith] at h
+  | [a] => simpa [Python.escapeDoc] using h
+  | [a, b] => simpa [Python.escapeDoc] using h
+  | a :: b :: c :: r' =>
+    simp only [Python.escapeDoc] at h
+    split at h
+    · simp [Str.startsWith] at h
+    · have hh := py_escape_head (b :: c :: r')
+      cases he : Python.escapeDoc (b :: c :: r') with
+      | nil => rw [he] at h; simp [Str.startsWith] at h
+      | cons y t =>
+        rw [he] at h hh
+        simp [Str.startsWith] at h
+        have := hh (by simp [h.2])
+        simp at this
+        simp [Str.startsWith, h.1, this]
+
+theorem py_escape_ok (c : Str) :
+    unescapedTripleQuote false (Python.escapeDoc c) = false ∧
+    unescapedTripleQuote true (Python.escapeDoc c) = false := by
+  induction c using Python.escapeDoc.induct with
+  | case1 c c2 c3 r h ih =>
+    simp [Python.escapeDoc, h, unescapedTripleQuote, Str.startsWith, ih.1]
+  | case2 c c2 c3 r h ih =>
+    have e : Python.escapeDoc (c :: c2 :: c3 :: r) = c :: Python.escapeDoc (c2 :: c3 :: r) := by
+      simp [Python.escapeDoc, h]
+    rw [e]
+    refine ⟨?_, by simp [unescapedTripleQuote, ih.1]⟩
+    by_cases hb : c = '\\'
+    · simp [unescapedTripleQuote, hb, ih.2]
+    · simp only [unescapedTripleQuote, hb, if_false, ih.1, Bool.or_false]
+      cases hs : Str.startsWith (c :: Python.escapeDoc (c2 :: c3 :: r)) s%"\"\"\"" with
+      | false => rfl
+      | true =>
+        exfalso
+        simp only [Str.startsWith, Bool.and_eq_true, beq_iff_eq] at hs
+        have h2 := py_escape_starts2 (c2 :: c3 :: r) (by simpa [Str.startsWith] using hs.2)
+        simp [Str.startsWith] at h2
+        exact h ⟨hs.1, h2.1, h2.2⟩
+  | case3 s h =>
+    match s, h with
+    | [], _ => simp [Python.escapeDoc, unescapedTripleQuote]
+    | [a], _ => by_cases ha : a = '\\' <;> simp [Python.escapeDoc, unescapedTripleQuote, Str.startsWith, ha]
+    | [a, b], _ =>
+      by_cases ha : a = '\\' <;> by_cases hb : b = '\\' <;>
+        simp [Python.escapeDoc, unescapedTripleQuote, Str.startsWith, ha, hb]
+    | a :: b :: c :: r, h => exact absurd rfl (h a b c r)
+
+/-! ### the model's escaping functions are `str::replace` -/
+
+theorem ts_escape_go (fuel : Nat) : ∀ s : Str, s.length ≤ fuel →
+    Str.replaceSub.go s%"*/" s%"*\\/" fuel s = TypeScript.escapeDoc s := by
+  induction fuel with
+  | zero => intro s h; cases s with
+    | nil => rfl
+    | cons c t => simp at h
+  | succ fuel ih =>
+    intro s h
+    match s with
+    | [] => rfl
+    | [c] =>
+      by_cases hc : c = '*' <;>
+        simp [Str.replaceSub.go, TypeScript.escapeDoc, Str.startsWith, hc, ih [] (by simp)]
+    | c :: d :: t =>
+      have h1 : (d :: t).length ≤ fuel := by simp at h ⊢; omega
+      have h2 : t.length ≤ fuel := by simp at h ⊢; omega
+      by_cases hc : c = '*' <;> by_cases hd : d = '/'
+      · subst hc; subst hd
+        simp [Str.replaceSub.go, TypeScript.escapeDoc, Str.startsWith, ih t h2]
+      · simp [Str.replaceSub.go, TypeScript.escapeDoc, Str.startsWith, hc, hd, ih _ h1]
+      · subst hd
+        have e := ih _ h1
+        simp only [TypeScript.escapeDoc] at e
+        simp [Str.replaceSub.go, TypeScript.escapeDoc, Str.startsWith, hc, e]
+      · simp [Str.replaceSub.go, TypeScript.escapeDoc, Str.startsWith, hc, hd, ih _ h1]
+
+/-- the model's `escapeDoc` is `str::replace("*/", "*\\/")` -/
+theorem ts_escape_eq_replace (c : Str) :
+    TypeScript.escapeDoc c = Str.replaceSub c s%"*/" s%"*\\/" := by
+  simp [Str.replaceSub, ts_escape_go c.length c (Nat.le_refl _)]
+
+theorem py_escape_go (fuel : Nat) : ∀ s : Str, s.length ≤ fuel →
+    Str.replaceSub.go s%"\"\"\"" s%"\\\"\\\"\\\"" fuel s = Python.escapeDoc s := by
+  induction fuel with
+  | zero => intro s h; cases s with
+    | nil => rfl
+    | cons c t => simp at h
+  | succ fuel ih =>
+    intro s h
+    match s with
+    | [] => rfl
+    | [a] =>
+      simp [Str.replaceSub.go, Python.escapeDoc, Str.startsWith, ih [] (by simp)]
+    | [a, b] =>
+      have := ih [b] (by simp at h ⊢; omega)
+      simp [Str.replaceSub.go, Python.escapeDoc, Str.startsWith, this]
+    | a :: b :: c :: r =>
+      have h1 : (b :: c :: r).length ≤ fuel := by simp at h ⊢; omega
+      have h2 : r.length ≤ fuel := by simp at h ⊢; omega
+      by_cases hq : a = '"' ∧ b = '"' ∧ c = '"'
+      · obtain ⟨rfl, rfl, rfl⟩ := hq
+        simp [Str.replaceSub.go, Python.escapeDoc, Str.startsWith, ih r h2]
+      · have hs : Str.startsWith (a :: b :: c :: r) s%"\"\"\"" = false := by
+          cases hh : Str.startsWith (a :: b :: c :: r) s%"\"\"\"" with
+          | false => rfl
+          | true => simp [Str.startsWith] at hh; exact absurd hh hq
+        rw [Str.replaceSub.go, hs]
+        simp [Python.escapeDoc, hq, ih _ h1]
+
+/-- the model's `escapeDoc` is `str::replace("\"\"\"", "\\\"\\\"\\\"")` -/
+theorem py_escape_eq_replace (c : Str) :
+    Python.escapeDoc c = Str.replaceSub c s%"\"\"\"" s%"\\\"\\\"\\\"" := by
+  simp [Str.replaceSub, py_escape_go c.length c (Nat.le_refl _)]
+
+/-! ## 9. the parser hands single-line entries to the renderers -/
+
+/-- `\n` or `\r` -/
+def isBreak (c : Char) : Bool := c = '\n' || c = '\r'
+
+theorem docLines_no_break (s : Str) : ∀ l ∈ Parser.docLines s, l.any isBreak = false := by
+  induction s with
+  | nil => simp [Parser.docLines]
+  | cons c r ih =>
+    simp only [Parser.docLines]
+    split
+    · exact ih
+    · split
+      · intro l hl
+        simp only [List.mem_cons] at hl
+        rcases hl with rfl | hl
+        · rfl
+        · exact ih l hl
+      · next h1 h2 =>
+        have hc : isBreak c = false := by
+          simp only [not_or] at h2
+          simp [isBreak, h2.1, h2.2]
+        split
+        · next l ls hd =>
+          intro x hx
+          simp only [List.mem_cons] at hx
+          rcases hx with rfl | hx
+          · simp [hc, ih l (by simp [hd])]
+          · exact ih x (by simp [hd, hx])
+        · intro x hx
+          simp only [List.mem_singleton] at hx
+          subst hx; simp [hc]
+
+theorem any_dropWhile {p q : Char → Bool} (s : Str) (h : s.any p = false) : (s.dropWhile q).any p = false := by
+  induction s with
+  | nil => rfl
+  | cons c r ih =>
+    simp only [List.any_cons, Bool.or_eq_false_iff] at h
+    simp only [List.dropWhile_cons]
+    split
+    · exact ih h.2
+    · simp [h.1, h.2]
+
+theorem any_reverse' {p : Char → Bool} (s : Str) : s.reverse.any p = s.any p := by
+  simp [List.any_eq]
+
+theorem any_trim (U : UnicodeOps) {p : Char → Bool} (s : Str) (h : s.any p = false) : (U.trim s).any p = false := by
+  unfold UnicodeOps.trim
+  rw [any_reverse']
+  apply any_dropWhile
+  rw [any_reverse']
+  exact any_dropWhile _ h
+
+theorem any_trimEnd (U : UnicodeOps) {p : Char → Bool} (s : Str) (h : s.any p = false) :
+    (Swift.trimEnd U s).any p = false := by
+  unfold Swift.trimEnd
+  rw [any_reverse']
+  apply any_dropWhile
+  rw [any_reverse']
+  exact h
+
+/-- no entry produced by the parser contains `\n` or `\r` -/
+theorem entries_no_break (U : UnicodeOps) (docs : List Str) :
+    ∀ e ∈ entries U docs, e.any isBreak = false := by
+  intro e he
+  simp only [entries, Parser.docEntries, Parser.splitCommentLines, List.mem_flatMap, List.mem_map] at he
+  obtain ⟨d, _, l, hl, rfl⟩ := he
+  exact any_trim U l (docLines_no_break _ l hl)
+
+/-- nothing is lost by the split: the lines are the doc string without its line breaks -/
+theorem docLines_flatten (s : Str) : (Parser.docLines s).flatten = s.filter fun c => !(c = '\n' || c = '\r') := by
+  induction s with
+  | nil => rfl
+  | cons c r ih =>
+    simp only [Parser.docLines]
+    split
+    · next h => simp [h.1, ih]
+    · split
+      · next h1 h2 =>
+        rcases h2 with h2 | h2 <;> simp [h2, ih]
+      · next h1 h2 =>
+        simp only [not_or] at h2
+        split
+        · next l ls hd =>
+          rw [hd] at ih
+          simp [h2.1, h2.2] at ih ⊢
+          exact ih
+        · next hd =>
+          rw [hd] at ih
+          simp [h2.1, h2.2] at ih ⊢
+          exact ih
+
+/-- the lines consist of characters of the string -/
+theorem docLines_any {p : Char → Bool} (s : Str) (h : s.any p = false) :
+    ∀ l ∈ Parser.docLines s, l.any p = false := by
+  induction s with
+  | nil => simp [Parser.docLines]
+  | cons c r ih =>
+    simp only [List.any_cons, Bool.or_eq_false_iff] at h
+    have ih := ih h.2
+    simp only [Parser.docLines]
+    split
+    · exact ih
+    · split
+      · intro l hl
+        simp only [List.mem_cons] at hl
+        rcases hl with rfl | hl
+        · rfl
+        · exact ih l hl
+      · split
+        · next l ls hd =>
+          intro x hx
+          simp only [List.mem_cons] at hx
+          rcases hx with rfl | hx
+          · simp [h.1, ih l (by simp [hd])]
+          · exact ih x (by simp [hd, hx])
+        · intro x hx
+          simp only [List.mem_singleton] at hx
+          subst hx; simp [h.1]
+
+/-- an entry contains only characters of the doc strings -/
+theorem entries_any (U : UnicodeOps) {p : Char → Bool} (docs : List Str) (h : ∀ d ∈ docs, d.any p = false) :
+    ∀ e ∈ entries U docs, e.any p = false := by
+  intro e he
+  simp only [entries, Parser.docEntries, Parser.splitCommentLines, List.mem_flatMap, List.mem_map] at he
+  obtain ⟨d, hd, l, hl, rfl⟩ := he
+  exact any_trim U l (docLines_any _ (any_trim U d (h d hd)) l hl)
+
+/-! ## 10. containment of the block the parser + a renderer make of the `#[doc]` strings -/
+
+theorem any_false_of_imp {p q : Char → Bool} (hpq : ∀ c, q c = true → p c = true) (s : Str)
+    (h : s.any p = false) : s.any q = false := by
+  induction s with
+  | nil => rfl
+  | cons c r ih =>
+    simp only [List.any_cons, Bool.or_eq_false_iff] at h ⊢
+    refine ⟨?_, ih h.2⟩
+    cases hq : q c with
+    | false => rfl
+    | true => rw [hpq c hq] at h; exact absurd h.1 (by simp)
+
+theorem Bad_typescript_never (U : UnicodeOps) (c : Str) : Bad .typescript U c = false :=
+  ts_escape_no_close c
+
+theorem Bad_pyDoc_never (U : UnicodeOps) (c : Str) : Bad .pyDoc U c = false :=
+  (py_escape_ok c).1
+
+theorem any_or_left_false {p q r : Char → Bool} (hr : ∀ c, r c = (p c || q c)) (s : Str)
+    (h : s.any p = false) : s.any r = s.any q := by
+  induction s with
+  | nil => rfl
+  | cons c t ih =>
+    simp only [List.any_cons, Bool.or_eq_false_iff] at h
+    simp only [List.any_cons, ih h.2, hr c, h.1, Bool.false_or]
+
+theorem all_congr_mem {α} (f g : α → Bool) (l : List α) (h : ∀ x ∈ l, f x = g x) : l.all f = l.all g := by
+  induction l with
+  | nil => rfl
+  | cons x t ih =>
+    simp only [List.all_cons]
+    rw [h x (by simp), ih fun y hy => h y (by simp [hy])]
+
+theorem all_not_eq {α} (f : α → Bool) (l : List α) : (l.all fun x => !f x) = !l.any f := by
+  induction l with
+  | nil => rfl
+  | cons x t ih => simp only [List.all_cons, List.any_cons, ih, Bool.not_or]
+
+/-- `Bad` on a string without `\n`, `\r`: only Scala's U+001A is left -/
+theorem Bad_of_no_break (sty : Style) (U : UnicodeOps) (e : Str) (h : e.any isBreak = false) :
+    Bad sty U e = (sty == .scala && e.any isSub) := by
+  cases sty
+  · rw [Bad_typescript_never]; rfl
+  · have : Bad .kotlin U e = false :=
+      any_false_of_imp (p := isBreak) (q := kotlinSyntax.eol) (fun c hc => hc) e h
+    rw [this]; rfl
+  · have : Bad .swift U e = false :=
+      any_false_of_imp (p := isBreak) (q := swiftSyntax.eol) (fun c hc => hc) _ (any_trimEnd U e h)
+    rw [this]; rfl
+  · show e.any scalaSyntax.eol = (true && e.any isSub)
+    rw [Bool.true_and]
+    exact any_or_left_false (p := isBreak) (fun c => rfl) e h
+  · have : Bad .go U e = false :=
+      any_false_of_imp (p := isBreak) (q := goSyntax.eol)
+        (fun c hc => by simp only [goSyntax, decide_eq_true_eq] at hc; simp [isBreak, hc]) e h
+    rw [this]; rfl
+  · rw [Bad_pyDoc_never]; rfl
+  · have : Bad .pyHash U e = false :=
+      any_false_of_imp (p := isBreak) (q := pyEol) (fun c hc => hc) e h
+    rw [this]; rfl
+
+/-- the exact characterisation at parser level -/
+theorem contained_entries (sty : Style) (U : UnicodeOps) (n : Nat) (docs : List Str) :
+    contained sty U n (entries U docs) = !KnownScalaSub sty U docs := by
+  rw [contained_eq, all_congr_mem _ (fun e => !(sty == .scala && e.any isSub)) _
+    fun e he => by rw [Bad_of_no_break sty U e (entries_no_break U docs e he)]]
+  unfold KnownScalaSub
+  cases (sty == Style.scala)
+  · simp
+  · simp only [Bool.true_and]; exact all_not_eq _ _
 
 end TsV.C15
